@@ -68,7 +68,7 @@ def adversarial(rng):
         sc["name"][1] = ""        # apiConfig.name evaluates to the empty string: still what the write must carry
     elif sc["name"][0] == "Ok" and rng.random() < 0.08:
         # names / namespaces with surrounding blanks, inner dots, upper case: taken verbatim, never normalised
-        sc["name"][1] = rng.choice([" w1", "w1 ", " w1 ", "W1", "w.1", "w1.", "ｗ1"])
+        sc["name"][1] = rng.choice([" w1", "w1 ", " w1 ", "W1", "w.1", "w1.", "ｗ1", "n" * 253, "n" * 254, "long-" * 60, "x" * 64])
         if sc["name"][2] is not None and rng.random() < 0.5:
             sc["name"][2] = rng.choice([" ns1", "ns1 ", "NS1"])
     if rng.random() < 0.5:
